@@ -35,5 +35,5 @@ for s in seeds:
         meta["detected_by"] = sorted(p for p, x in results[s].items() if isinstance(x, dict) and x.get("violation"))
         meta["checked_with"] = sorted(results[s].keys())
         json.dump(meta, open(os.path.join(d, "meta.json"), "w"), indent=1)
-json.dump(results, open(os.path.join(VERIF, "seeded", "RESULTS%s.json" % ("_matrix" if ALL else "")), "w"), indent=1)
+json.dump(results, open(os.path.join(VERIF, "seeded", "RESULTS%s%s.json" % ("_matrix" if ALL else "", os.environ.get("RESULTS_SUFFIX", ""))), "w"), indent=1)
 subprocess.run("rm -rf %s" % os.path.join(VERIF, "replay"), shell=True)
